@@ -364,6 +364,7 @@ def h_the_evaluate():
 def h_evaluate_maps_results():
     """ResultQuantifier.evaluate: sweeps dead instances, then maps _process_result_ over _evaluate__ lazily, one to one."""
     def run(vm):
+        from pyvc.values import Builtin, PyList
         ctx = vm.ctx
         q = vm.alloc(cls(vm, SYM, "An"), {}, tag="an")
         log = []
@@ -379,10 +380,14 @@ def h_evaluate_maps_results():
         vm.spec.stubs["ResultQuantifier._evaluate__"] = lambda vm_, a, k: GenObj(inner(), "_evaluate__")
         vm.spec.stubs["ResultQuantifier._process_result_"] = lambda vm_, a, k: ("processed", a[1])
         vm.spec.opaque_hooks["getattr"] = lambda vm_, o, name: (lambda *a, **k: None)
+        # the nodes of the query (display-graph traversal abstracted): evaluate() announces the new evaluation to each of them
+        started = []
+        node = vm.alloc(vm.ext("object"), tag="some-node")
+        node.fields["_start_evaluation_"] = Builtin("_start_evaluation_", lambda it, fr, a, k: started.append(tuple(log)))
+        vm.spec.attr_hooks[("SymbolicExpression", "_all_nodes_")] = lambda it, o: PyList([node])
         graph_calls = []
         g = vm.alloc(vm.ext("object"), tag="graph")
         vm.spec.stubs["SymbolGraph.__call__"] = lambda vm_, a, k: g
-        from pyvc.values import Builtin
         g.fields["remove_dead_instances"] = Builtin("sweep", lambda it, fr, a, k: graph_calls.append(tuple(log)))
         out = []
         raised = None
@@ -392,7 +397,8 @@ def h_evaluate_maps_results():
         except PyRaise as pr:
             raised = pr
         ok = (out == [("processed", r1), ("processed", r2)] and raised is not None
-              and exc_exact(vm, raised, "GreaterThanExpectedNumberOfSolutions") and graph_calls == [()])
+              and exc_exact(vm, raised, "GreaterThanExpectedNumberOfSolutions") and graph_calls == [()]
+              and started in ([], [()]))          # if nodes are told about the new evaluation, then before anything is pulled
         ctx.check("ResultQuantifier.evaluate::sweeps-then-maps-each-result-and-propagates-errors", z3.BoolVal(ok),
                   detail=f"out={out} raised={raised} sweeps={graph_calls}")
     return Harness("evaluate-maps-results", run, spec=Spec())
